@@ -7,7 +7,7 @@ CONFIGS = [('system-z', '')]
 WEAKLY = False
 WANT = 'strong'
 RULE = ('as C01 generators with penguin chains (2-5 layers) over-weighted; judged by kz(AB) < kz(A!B) on enumerated worlds. Non-trivial = A&B and A&!B both satisfiable; distinct by hash(base, query).')
-ASSUMPTIONS = ['worlds are enumerated: bases of <= 6 atoms (incl. query atoms outside the signature), <= 8 conditionals, formula depth <= 3', 'reference semantics vf/refmodel.py is the definition quoted in the property (self-tested on textbook instances at start-up)']
+ASSUMPTIONS = ['worlds are enumerated: bases of <= 6 atoms (incl. query atoms outside the signature) and <= 8 conditionals, plus a ~5% share of "wide" bases with 7-8 atoms, 9-13 conditionals or 5-7 layers; formula depth <= 3 (deep equivalent wrappers to depth 9)', 'reference semantics vf/refmodel.py is the definition quoted in the property (self-tested on textbook instances at start-up)']
 TRUSTED = []
 FLOOR = {'quick': 300, 'thorough': 3000}
 BUDGET = {'quick': 80, 'thorough': 900}
